@@ -505,7 +505,11 @@ class Interp:
                         s.mem[k] = frozenset(s.mem[k] | val)
         for c in cells:
             b = cell_base(c)
-            if b[0] == "g" and b[1] != "errno":
+            if b[0] == "g" and b[1] == "errno":
+                # the function reports a failure of its own through errno: same standing as a failed library call
+                if val and all(atom_interval(a)[0] >= 1 for a in val) and "failed" not in s.mon and fn is not None and node is not None:
+                    s.mon["failed"] = "errno=@%s:%d" % (fn.name, node["l"][0])
+            elif b[0] == "g":
                 self.events.append(("store-global", fn, node, (c, val), s, tuple(f.name for f in self.stack), tuple(self.callsites)))
             elif b[0] == "d":
                 self.events.append(("store-input", fn, node, (c, val), s, tuple(f.name for f in self.stack), tuple(self.callsites)))
